@@ -3,7 +3,7 @@
 From Coq Require Import String List NArith ZArith Bool.
 From J5V.lib Require Import Text Outcome.
 From J5V.model Require Import BclLexer BclParser BclErrpos BclErrposText BclToFile BclFmt.
-From J5V.proofs Require Import BclPosProofs BclLexerProofs BclParserProofs BclErrposProofs BclGenProofs BclBytesProofs BclParseBytesProofs BclToFileProofs BclFragWfProofs BclDepthProofs BclErrposTextProofs.
+From J5V.proofs Require Import BclPosProofs BclLexerProofs BclParserProofs BclErrposProofs BclGenProofs BclBytesProofs BclParseBytesProofs BclToFileProofs BclFragWfProofs BclDepthProofs BclErrposTextProofs BclPanicSitesProofs.
 Import ListNotations.
 
 (* [valid_pos data p]: p is the (line, column) of a rune of the input or of its end.
@@ -173,6 +173,14 @@ Theorem C11_model_at_the_nesting_bound :
     Some (false, [((0, 4 + Z.of_N max_value_depth), (0, 4 + Z.of_N max_value_depth))%Z]).
 Proof. exact max_value_depth_boundary. Qed.
 Print Assumptions C11_model_at_the_nesting_bound.
+
+(* every expression of the nine anchored files that can panic by itself (index, slice, single-value type assertion,
+   integer division, explicit panic: 39 sites, enumerated by the translator on every run) is in the reviewed list,
+   where each has its cover: an explicit Panic arm of the model excluded by a theorem above (8 sites), the enclosing
+   guard, a map read, a loop index, package initialisation, or a function outside the ParseFile / Fmt / HumanString paths *)
+Theorem C11_panic_capable_sites_reviewed : map fst reviewed_sites = J5V.gen.BclIndexGen.panic_capable_sites.
+Proof. exact panic_capable_sites_reviewed. Qed.
+Print Assumptions C11_panic_capable_sites_reviewed.
 
 (* the byte-level entry point is the rune-level one after []rune(input) *)
 Theorem C11_parse_file_is_parse_runes : forall input ff,
